@@ -92,14 +92,22 @@ Init ==
    /\ gSess = 0 /\ gHand = 0 /\ wrote = <<>>
    /\ npk = 0 /\ hi = [s \in SID |-> 0] /\ regd = [s \in SID |-> -1] /\ viol = {} /\ script = <<>>
 
+\* a fresh connection (used by trace validation to chain many scenarios in one behaviour)
+Reset ==
+   /\ conn' = "open" /\ pc' = "read" /\ inbox' = None /\ cur' = None
+   /\ known' = [s \in SID |-> NoSess] /\ hnd' = -1
+   /\ resp' = [seq |-> 0, next |-> -1, nrep |-> 0, nwr |-> 0, restart |-> FALSE]
+   /\ gSess' = 0 /\ gHand' = 0 /\ wrote' = <<>>
+   /\ npk' = 0 /\ hi' = [s \in SID |-> 0] /\ regd' = [s \in SID |-> -1] /\ viol' = {} /\ script' = <<>>
+
 \* ---- environment --------------------------------------------------------
 ClientSend(p) ==
-   /\ conn = "open" /\ pc = "read" /\ inbox = None
+   /\ conn = "open" /\ pc = "read" /\ inbox.rd = "none"
    /\ inbox' = p /\ npk' = npk + 1 /\ script' = Append(script, p) /\ wrote' = <<>>
    /\ UNCHANGED << conn, pc, cur, known, hnd, resp, gSess, gHand, hi, regd, viol >>
 
 ClientEOF ==
-   /\ conn = "open" /\ pc = "read" /\ inbox = None
+   /\ conn = "open" /\ pc = "read" /\ inbox.rd = "none"
    /\ inbox' = EofPkt /\ script' = Append(script, EofPkt)
    /\ UNCHANGED << conn, pc, cur, known, hnd, resp, gSess, gHand, wrote, npk, hi, regd, viol >>
 
@@ -120,13 +128,13 @@ ReadClass(p) == IF p.rd = "eof" THEN "eof"
 
 \* a key mismatch is answered with one error packet before the reader gives up
 ReadErrWrite ==
-   /\ conn = "open" /\ pc = "read" /\ inbox # None /\ wrote = <<>>
+   /\ conn = "open" /\ pc = "read" /\ inbox.rd # "none" /\ wrote = <<>>
    /\ ReadClass(inbox) = "mismatch"
    /\ wrote' = << ErrPacket(inbox) >>
    /\ UNCHANGED << conn, pc, inbox, cur, known, hnd, resp, gSess, gHand, hvars >>
 
 Read ==
-   /\ conn = "open" /\ pc = "read" /\ inbox # None
+   /\ conn = "open" /\ pc = "read" /\ inbox.rd # "none"
    /\ LET c == ReadClass(inbox) IN
       /\ (c = "mismatch") => (wrote # <<>>)
       /\ IF c = "ok"
@@ -221,7 +229,7 @@ Post ==
    /\ UNCHANGED << conn, inbox, hnd, resp, wrote, npk, script >>
 
 \* in MC the identity of a continuation is derived from the request that registered it
-ContId == IF cur = None THEN -1 ELSE cur.sid * 1000 + cur.seq
+ContId == IF cur.rd = "none" THEN -1 ELSE cur.sid * 1000 + cur.seq
 Next == (\E p \in Packets : ClientSend(p)) \/ ClientEOF \/ ReadErrWrite \/ Read \/ Get \/ HStep(ContId) \/ Post
 Spec == Init /\ [][Next]_vars
 
